@@ -11,7 +11,8 @@ RULE = ("one case = one victim connection inside a broker session with persisten
         "packet for every k in a range covering the whole packet (cut points), DISCONNECT, a malformed packet, plain close. "
         "After every ending: the packets of the watchers (will, presence 'unsubscribe' events) and a full trie dump plus the "
         "connection counter are compared. non-trivial = distinct (op, answer)")
-TRUSTED = ["a truncated packet is modelled as 'no effect' (DecodePacket fails on it: C16 / C09 models); the byte offset k is applied to the real encoding by the harness and to the model encoding (Mqtt.encodeWire) by the driver",
+TRUSTED = ["the broker's own publishes on stats/<node>/ (monitoring sink 'self', once a second, into the owner's contract) are not answers to a request and are dropped from the observables",
+           "a truncated packet is modelled as 'no effect' (DecodePacket fails on it: C16 / C09 models); the byte offset k is applied to the real encoding by the harness and to the model encoding (Mqtt.encodeWire) by the driver",
            "quiescence polling as for C02"]
 ASSUMPTIONS = ["internal failures while serving (Go panics) are covered by the regenerated facts 'Process defers Close' / 'Close recovers' of C09, not re-enacted here"]
 CLAIM = {
